@@ -7,7 +7,7 @@ rc_all=0
 for p in $(python3 -c "import json;print(' '.join(c['property_id'] for c in json.load(open('MANIFEST.json'))['checks']))"); do
   VERIF_SEED=$seed /venv/bin/python -m rsim check $p --tier $tier > $out/$p.log 2>&1; rc=$?
   echo "$p rc=$rc $(grep -c '^KNOWN-FINDING' $out/$p.log) known; $(grep -E 'violation in run|HARNESS' $out/$p.log | head -1 | cut -c1-300) $(tail -1 $out/$p.log | cut -c1-160)"
-  [ $rc -ne 0 ] && rc_all=1
+  if [ $rc -ne 0 ]; then rc_all=1; cp $out/$p.log /dev/shm/rsim-failed-$p-$tier-$seed.log; fi   # keep the full log of a run that needs attention
 done
 rm -rf $out
 exit $rc_all
